@@ -68,6 +68,12 @@ func NewPool(evidenceDB dbm.DB, stateDB sm.Store, blockStore BlockStore) (*Pool,
 		consensusBuffer: make([]duplicateVoteSet, 0),
 	}
 
+	// The node may have stopped after the block at state.LastBlockHeight was stored and before
+	// Update(state, block.Evidence) ran (ApplyBlock updates the pool late, and the handshake replays
+	// blocks with an empty evidence pool): the evidence that block committed would still be pending
+	// here, without a committed marker, and would be proposed and accepted in a second block.
+	pool.reconcileWithLastBlock()
+
 	// if pending evidence already in db, in event of prior failure, then check for expiration,
 	// update the size and load it back to the evidenceList
 	pool.pruningHeight, pool.pruningTime = pool.removeExpiredPendingEvidence()
@@ -81,6 +87,40 @@ func NewPool(evidenceDB dbm.DB, stateDB sm.Store, blockStore BlockStore) (*Pool,
 	}
 
 	return pool, nil
+}
+
+// blockLoader is implemented by block stores that can return whole blocks (store.BlockStore does).
+type blockLoader interface {
+	LoadBlock(height int64) *types.Block
+}
+
+// reconcileWithLastBlock marks the evidence of the block at the height of the loaded state as
+// committed (removing it from the pending evidence) unless it is marked already. Idempotent.
+// Called by NewPool before the pending evidence is counted and loaded.
+func (evpool *Pool) reconcileWithLastBlock() {
+	bs, ok := evpool.blockStore.(blockLoader)
+	if !ok || evpool.state.LastBlockHeight <= 0 {
+		return
+	}
+	// only a block that carries evidence has to be loaded
+	meta := evpool.blockStore.LoadBlockMeta(evpool.state.LastBlockHeight)
+	if meta == nil || len(meta.Header.EvidenceHash) == 0 ||
+		bytes.Equal(meta.Header.EvidenceHash, types.EvidenceList{}.Hash()) {
+		return
+	}
+	block := bs.LoadBlock(evpool.state.LastBlockHeight)
+	if block == nil {
+		return
+	}
+	var missed types.EvidenceList
+	for _, ev := range block.Evidence.Evidence {
+		if !evpool.isCommitted(ev) {
+			missed = append(missed, ev)
+		}
+	}
+	if len(missed) > 0 {
+		evpool.markEvidenceAsCommitted(missed)
+	}
 }
 
 // PendingEvidence is used primarily as part of block proposal and returns up to maxNum of uncommitted evidence.
